@@ -202,6 +202,11 @@ func runGenerated(t *testing.T, rt *rapid.T, spec *checkSpec) (res caseResult) {
 			if s := fmt.Sprint(v); strings.Contains(s, "deadlock: main bubble goroutine") {
 				buf := make([]byte, 1<<20)
 				buf = buf[:runtime.Stack(buf, true)]
+				if res.failure != nil && res.deciding {
+					// the case already established a violation of the property under
+					// check; the leftover goroutines are a consequence, keep the verdict
+					return
+				}
 				res.failure = &failure{Oracle: "shutdown", Key: "goroutines-left-blocked", Msg: "goroutines of the case remain blocked after every node was shut down: " + s}
 				res.deciding = contains(spec.deciding, "shutdown")
 				res.actions = append([]vAct(nil), curActs...)
@@ -523,6 +528,18 @@ func loadReplay(path string) (replayFile, error) {
 }
 
 func replayCase(t *testing.T, spec *checkSpec, acts []vAct, trace bool) (res caseResult, tr []string) {
+	defer func() {
+		if v := recover(); v != nil {
+			if s := fmt.Sprint(v); strings.Contains(s, "deadlock: main bubble goroutine") {
+				if res.failure == nil {
+					res.failure = &failure{Oracle: "shutdown", Key: "goroutines-left-blocked", Msg: s}
+					res.deciding = contains(spec.deciding, "shutdown")
+				}
+				return
+			}
+			panic(v)
+		}
+	}()
 	synctest.Test(t, func(t *testing.T) {
 		c := newCluster(1)
 		c.traceOn = trace
